@@ -195,13 +195,14 @@ def lake_build(targets, log):
     return {'ok': ok, 'failed': failed, 'output': r.stdout[-6000:] if not ok else ''}
 
 
-def audit(prop, log):
+def audit(prop, log, modules=None):
     """axiom audit of every theorem in QRV.Props.<prop>, plus theorem counts of its QRV dependencies,
     plus a forbidden-token scan of all non-generated Lean sources."""
     res = {'ok': True, 'theorems': {}, 'bad': [], 'dep_theorems': 0, 'forbidden': []}
     f = os.path.join(B, 'audit_%s.lean' % prop)
+    modules = modules or ['QRV.Props.' + prop]
     with open(f, 'w') as fh:
-        fh.write('import QRV.Audit\nimport QRV.Props.%s\n#audit_module QRV.Props.%s\n#audit_deps\n' % (prop, prop))
+        fh.write('import QRV.Audit\n' + ''.join('import %s\n' % m for m in modules) + ''.join('#audit_module %s\n' % m for m in modules) + '#audit_deps\n')
     r = sh(['lake', 'env', 'lean', f], cwd=LEAN)
     if r.returncode != 0:
         res['ok'] = False
@@ -347,7 +348,7 @@ def write_replay(prop, name, obj):
     return p
 
 
-def prepare(ctx, need_race=False):
+def prepare(ctx, need_race=False, modules=None):
     """steps 1-2 under the build lock; returns dict with regen/build/audit results and private
     copies of the binaries for this run."""
     with Lock():
@@ -358,9 +359,11 @@ def prepare(ctx, need_race=False):
             r = sh([os.path.join(V, 'bin', 'buildgo'), '-race'], env=GOENV)
             if r.returncode != 0:
                 return {'fatal': 'race build failed:\n' + r.stdout[-3000:]}
-        lb = lake_build(['QRV.Props.' + ctx.prop, 'QRV.Audit'], ctx.log)
+        modules = modules or ['QRV.Props.' + ctx.prop]
+        ctx.prop_modules = modules
+        lb = lake_build(modules + ['QRV.Audit'], ctx.log)
         ld = lake_build(['qrvdriver'], ctx.log)
-        au = audit(ctx.prop, ctx.log) if lb['ok'] else {'ok': False, 'theorems': {}, 'bad': ['proofs did not build'], 'dep_theorems': 0, 'forbidden': []}
+        au = audit(ctx.prop, ctx.log, modules) if lb['ok'] else {'ok': False, 'theorems': {}, 'bad': ['proofs did not build'], 'dep_theorems': 0, 'forbidden': []}
         shutil.rmtree(ctx.rundir, ignore_errors=True)
         os.makedirs(ctx.rundir)
         ctx.harness = os.path.join(ctx.rundir, 'verifharness')
